@@ -288,7 +288,9 @@ func (m *Monitor) End(v *goatlang.VM) {
 		return
 	}
 	f := s.frames[0]
-	m.checkTransition(v, f, f.code.n, v.VerifDepth(), true)
+	if !(f.hasPrev && opTable[f.prevOp+8].kind == kReturn) { // a top-level return simply ends the run
+		m.checkTransition(v, f, f.code.n, v.VerifDepth(), true)
+	}
 	m.Residual = v.VerifDepth() - f.floor
 }
 
